@@ -85,6 +85,7 @@ impl BuildJob<'_> {
         let before_t = try_stat(self.t.as_path()).map_err(RedoError::opaque_error)?;
         debug_assert!(self.lock.is_owned());
         let (is_target, dirty) = (self.should_build_func)(&mut ptx, &self.t)?;
+        vemit!("Verdict", "t": self.sf.name().as_str(), "fid": self.sf.id(), "verdict": match &dirty { Dirtiness::Clean => "clean", Dirtiness::Dirty => "dirty", Dirtiness::NeedTargets(_) => "need" }, "need": match &dirty { Dirtiness::NeedTargets(v) => v.iter().map(|f| f.name().as_str().to_string()).collect::<Vec<String>>(), _ => Vec::new() });
         match dirty {
             Dirtiness::Clean => {
                 // Target doesn't need to be built; skip the whole task.
@@ -131,6 +132,7 @@ impl BuildJob<'_> {
         {
             let nice_t = nice(ptx.state().env(), &t).map_err(RedoError::opaque_error)?;
             state::warn_override(&nice_t);
+            vemit!("Override", "t": sf.name().as_str(), "fid": sf.id(), "already": sf.is_override);
             if !sf.is_override {
                 log_warn!("{:?} - old: {:?}\n", &nice_t, &sf.stamp);
                 log_warn!("{:?} - old: {:?}\n", &nice_t, &newstamp);
@@ -149,6 +151,7 @@ impl BuildJob<'_> {
             // to produce hello.c, but we don't want that to happen if
             // hello.c was created by the end user.
             log_debug2!("-- static ({:?})\n", &t);
+            vemit!("Static", "t": sf.name().as_str(), "fid": sf.id());
             if !sf.is_override {
                 sf.set_static(ptx.state().env())?;
             }
@@ -159,6 +162,7 @@ impl BuildJob<'_> {
         let df = match paths::find_do_file(&mut ptx, &mut sf)? {
             Some(df) => df,
             None => {
+                vemit!("NoRule", "t": sf.name().as_str(), "fid": sf.id(), "exists": Path::new(&t).exists());
                 let rv = if Path::new(&t).exists() {
                     sf.set_static(ptx.state().env())?;
                     EXIT_SUCCESS
@@ -273,6 +277,7 @@ impl BuildJob<'_> {
         let mut dof = state::File::from_name(&mut ptx, &df.do_dir.join(&df.do_file), true)?;
         dof.set_static(ptx.state().env())?;
         dof.save(&mut ptx)?;
+        vemit!("StartSelf", "t": sf.name().as_str(), "fid": sf.id(), "dofile": df.do_file.to_string_lossy().to_string());
         let ps = ptx.commit().map_err(RedoError::opaque_error)?;
         logs::meta("do", state::target_relpath(ps.env(), &t)?.as_str(), None);
 
@@ -391,6 +396,7 @@ impl BuildJob<'_> {
         Ok(Box::pin(async move {
             let _lock = lock; // ensure we hold the lock until after state has been recorded
             let mut rv = job.await;
+            vemit!("JobDone", "t": sf.name().as_str(), "fid": sf.id(), "rv": rv);
             let mut ps = ps_ref.borrow_mut();
             let mut ptx = match ProcessTransaction::new(*ps, TransactionBehavior::Immediate) {
                 Ok(ptx) => ptx,
@@ -453,6 +459,7 @@ impl BuildJob<'_> {
             state::target_relpath(ptx.state().env(), &self.t)?.as_str(),
             None,
         );
+        vemit!("StartUnlocked", "t": self.sf.name().as_str(), "fid": self.sf.id(), "argv": argv.iter().map(|a| a.to_string_lossy().to_string()).collect::<Vec<String>>());
         let state = ptx.commit().map_err(RedoError::opaque_error)?;
         let job = server.start(self.t.into_string(), || {
             env::set_var(ENV_DEPTH, {
@@ -472,6 +479,7 @@ impl BuildJob<'_> {
         Ok(Box::pin(async move {
             let _lock = lock; // ensure we hold the lock until after the job has finished
             let rv = job.await;
+            vemit!("UnlockedDone", "fid": _lock.file_id(), "rv": rv);
             rv
         }))
     }
@@ -564,6 +572,8 @@ impl BuildJob<'_> {
             if st2.is_some() {
                 // either $3 file was created *or* stdout was written to.
                 // therefore tmpfile now exists.
+                vemit!("RecFs", "t": sf.name().as_str(), "fid": sf.id(), "op": "rename");
+                vgate!("rec_rename", "t": sf.name().as_str());
                 if let Err(e) = fs::rename(tmp_name, t) {
                     // This could happen for, eg. a permissions error on
                     // the target directory.
@@ -575,6 +585,7 @@ impl BuildJob<'_> {
 
                 // TODO(maybe): Remove EISDIR/EPERM exception or remove directory?
                 // Needed for makedir2 test. :(
+                vemit!("RecFs", "t": sf.name().as_str(), "fid": sf.id(), "op": "unlink");
                 match helpers::unlink(t) {
                     Ok(_)
                     | Err(Errno::EISDIR)
@@ -582,6 +593,7 @@ impl BuildJob<'_> {
                     e @ Err(_) => e.expect("failed to remove target file"),
                 }
             }
+            vgate!("rec_after_fs", "t": sf.name().as_str());
             if let Err(e) = sf.refresh(ptx) {
                 log_err!("{:?}: refresh: {}", t, e);
                 rv = EXIT_BUILD_JOB_ERROR;
@@ -621,6 +633,7 @@ impl BuildJob<'_> {
             log_err!("{:?}: set failed: {}", t, e);
             rv = EXIT_BUILD_JOB_ERROR;
         }
+        vemit!("RecDone", "t": sf.name().as_str(), "fid": sf.id(), "rv": rv);
         logs::meta(
             "done",
             &format!(
@@ -762,6 +775,7 @@ where
                         state::target_relpath(ptx.state().env(), &t)?.as_str(),
                         None,
                     );
+                    vemit!("Queued", "t": f.name().as_str(), "fid": f.id());
                     locked.push_back((f.id(), t));
                 } else {
                     // We had to create f before we had a lock, because we need f.id
@@ -833,6 +847,7 @@ where
                     state::target_relpath(ps_ref.borrow().env(), &t)?.as_str(),
                     None,
                 );
+                vemit!("Waiting", "fid": fid);
                 lock.check()?;
                 // this sequence looks a little silly, but the idea is to
                 // give up our personal token while we wait for the lock to
@@ -858,6 +873,7 @@ where
                 ptx.set_drop_behavior(DropBehavior::Commit);
                 let file = state::File::from_name(&mut ptx, t, true)?;
                 if file.is_failed(ptx.state().env()) {
+                    vemit!("FailedElsewhere", "t": file.name().as_str(), "fid": fid);
                     result.set(Err(RedoErrorKind::FailedInAnotherThread {
                         target: t.to_redo_path_buf(),
                     }
